@@ -65,6 +65,11 @@ type fallbackVec struct {
 func (inst *Instance) fallbackVectors(P *Program, solverName string, timeoutMs int, seed int, stats *SolverStats, perPath int) []map[string]interface{} {
 	solver := NewSolver(solverName, timeoutMs, seed, stats)
 	defer solver.Close()
+	if inst.in == nil || inst.snap == nil {
+		if !inst.prepare(P, solver) {
+			return nil
+		}
+	}
 	rng := rand.New(rand.NewSource(int64(seed)*7919 + int64(len(inst.Harness))))
 	var out []map[string]interface{}
 	work := [][]Decision{nil}
